@@ -56,7 +56,7 @@ SPEC = {
     "rule": "in-process PD server, real gRPC handlers. (1) every interleaving of 2 and of 3 concurrent UpdateGCSafePoint "
             "requests at Load/Save granularity (6 + 90 schedules, eager and lazy start, several value assignments, "
             "pre-set safe point) replayed with gates on server.GetStorage().Base; (2) random gated histories of 2-6 "
-            "requests with storage faults (error before / after effect), sets, gets and free-running bursts of 2-8 "
+            "requests with storage faults (error before / after effect), `cancel` of a request's own context while its storage access is parked (a write handed to another goroutine is still gated and may outlive the answer), sets, gets and free-running bursts of 2-8 "
             "concurrent updates; (3) random service histories: registrations, renewals, ttl<=0 removals, expiry by "
             "moving the TSO, legacy raw records (finite or missing gc_worker), API deletes, failing n-th storage "
             "write, malformed ids (empty, '..', 'a/../b', 'a//b'), boundary TTLs (MaxInt64, MaxInt64-now+-2, MinInt64) "
